@@ -1,9 +1,12 @@
 #!/usr/bin/env python3
-"""keep_round3.py: stores the confirmed round-3 seeded changes from /tmp/seed3-CNN/out3/K (+ run logs in
-/tmp/run3/CNN-K.log, cross-property logs /tmp/run3/CNN-K.by-CMM.log) under /verif/seeded/CNN-r3sK."""
+"""keep_round.py <round> <missed-keys...>: stores the confirmed seeded changes of a round from /tmp/seed<r>-CNN/out<r>/K
+(+ run logs /tmp/run<r>/CNN-K.log, cross-property logs /tmp/run<r>/CNN-K.by-CMM.log) under /verif/seeded/CNN-r<r>sK.
+Keys listed in SKIP (env, space separated) are not stored."""
 import os, re, subprocess, sys, glob
 ROOT = os.path.dirname(os.path.dirname(os.path.abspath(__file__)))
-MISSED = set("C01-1 C01-3 C02-1 C02-2 C03-1 C03-2 C03-3 C04-1 C04-3 C05-1 C06-2 C07-1 C07-2 C07-3 C08-2 C09-1 C10-1 C10-2 C11-1 C11-3 C12-1 C13-1 C14-2 C14-3 C15-1 C15-3 C16-1 C16-2 C18-1 C18-3 C19-2 C20-3".split())
+R = sys.argv[1]
+MISSED = set(sys.argv[2:])
+SKIP = set(os.environ.get("SKIP", "").split())
 def needs_of(readme):
     txt = open(readme).read()
     m = re.search(r"(?im)^(#+\s*|\*\*)?(what it needs[^\n]*|needs to manifest[^\n]*|what is needed[^\n]*)\n(.*?)(\n#+ |\n\*\*[A-Z]|\Z)", txt, re.S)
@@ -27,14 +30,14 @@ for n in range(1, 21):
     for k in (1, 2, 3):
         p = "C%02d" % n
         key = "%s-%d" % (p, k)
-        src = "/tmp/seed3-%s/out3/%d" % (p, k)
-        if key == "C03-3":
-            src = "/tmp/seed3-C03/out3/3b"
-        own = sig_of("/tmp/run3/%s.log" % key)
+        src = "/tmp/seed%s-%s/out%s/%d" % (R, p, R, k)
+        if key in SKIP:
+            continue
+        own = sig_of("/tmp/run%s/%s.log" % (R, key))
         caught = []
         if own:
             caught.append("%s (%s)" % (p, ", ".join(own[:2])))
-        for other in sorted(glob.glob("/tmp/run3/%s.by-*.log" % key)):
+        for other in sorted(glob.glob("/tmp/run%s/%s.by-*.log" % (R, key))):
             q = re.search(r"by-(C\d\d)", other).group(1)
             s = sig_of(other)
             if s:
@@ -43,4 +46,4 @@ for n in range(1, 21):
             print("NOT CAUGHT", key); continue
         needs = needs_of(os.path.join(src, "README.md")) or "see README.md"
         first = "missed" if key in MISSED else "caught"
-        subprocess.check_call([sys.executable, os.path.join(ROOT, "tools/keep_seed.py"), "%s-r3s%d" % (p, k), p, src, "; ".join(caught), first, needs])
+        subprocess.check_call([sys.executable, os.path.join(ROOT, "tools/keep_seed.py"), "%s-r%ss%d" % (p, R, k), p, src, "; ".join(caught), first, needs])
